@@ -109,6 +109,9 @@ def render_top(spec):
             nb2 = 4 * at["eps"] * at["sigma"] ** 12
         else:
             nb1, nb2 = at["sigma"], at["eps"]
+        if spec.get("stale_atomtype") == at["name"]:
+            # an earlier definition of the same type with another mass: the later line is the one in force
+            lines.append(f"{at['name']} {fmt(at['mass'] + 29.0)} 0.0 A {nb1!r} {nb2!r}")
         lines.append(f"{at['name']} {fmt(at['mass'])} 0.0 A {nb1!r} {nb2!r}")
     for mt in spec["moltypes"]:
         lines += render_moltype(mt)
